@@ -399,7 +399,7 @@ class Vector():
 		dtype = self.schema()
 
 		# Type check and promotion (same pattern as __setitem__)
-		if dtype is not None and value is not None:
+		if dtype is not None and dtype.kind is not object and value is not None:
 			try:
 				validate_scalar(value, dtype)
 			except TypeError:
@@ -431,8 +431,8 @@ class Vector():
 		new_nullable = any(x is None for x in out)
 
 		# Construct new dtype
-		if dtype is None:
-			# Mixed type → leave as None (dtype inference will happen)
+		if dtype is None or dtype.kind is object:
+			# Untyped / object (e.g. an all-None column) → let dtype inference decide
 			new_dtype = None
 		else:
 			new_dtype = dtype.with_nullable(nullable=new_nullable)
